@@ -189,3 +189,60 @@ func VerifH_C19_C_configmap() {
 }
 
 var errInjected = errors.New("injected failure")
+
+// VerifH_C19_D_secret: the Secret layer is all-or-nothing as well: an update in
+// which any entry is not valid base64 or does not decode leaves the previous view
+// of the whole Secret in force; a good update replaces it by exactly its entries.
+func VerifH_C19_D_secret() {
+	l := NewSecretLoader(nil, "ns", "sec")
+	old := Config{"x": int64(1)}
+	l.cache.Store(configv1alpha1.JobExecutionConfigName, old)
+	bad := map[string]bool{}
+	VerifHook_ConfigMapLoader_unmarshal = func(c *ConfigMapLoader, data string) (Config, error) {
+		if bad[data] {
+			return nil, errInjected
+		}
+		return Config{"from": data}, nil
+	}
+	sec := &corev1.Secret{}
+	sec.Namespace = vz.Pick("secret.namespace", "ns", "other")
+	sec.Name = vz.Pick("secret.name", "sec", "other")
+	sec.Data = map[string][]byte{}
+	anyBad := false
+	// base64 of "data-jobs" / "data-cron"
+	enc := map[string]string{string(configv1alpha1.JobExecutionConfigName): "ZGF0YS1qb2Jz", string(configv1alpha1.CronExecutionConfigName): "ZGF0YS1jcm9u"}
+	dec := map[string]string{string(configv1alpha1.JobExecutionConfigName): "data-jobs", string(configv1alpha1.CronExecutionConfigName): "data-cron"}
+	for _, k := range []string{string(configv1alpha1.JobExecutionConfigName), string(configv1alpha1.CronExecutionConfigName)} {
+		if !vz.Bool("has." + k) {
+			continue
+		}
+		switch vz.Choice("entry."+k, 3) {
+		case 0:
+			sec.Data[k] = []byte(enc[k])
+		case 1: // not base64 at all
+			sec.Data[k] = []byte("%%%not-base64%%%")
+			anyBad = true
+		case 2: // valid base64 of something that does not decode
+			sec.Data[k] = []byte(enc[k])
+			bad[dec[k]] = true
+			anyBad = true
+		}
+	}
+	vz.MapOrderNondetFor(sec.Data)
+	l.handleUpdate(sec)
+	got, ok := l.cache.Load(configv1alpha1.JobExecutionConfigName)
+	foreign := sec.Namespace != "ns" || sec.Name != "sec"
+	if foreign || anyBad {
+		vz.Assert(ok && got["x"] == int64(1), "C19/D/previous-view-kept")
+		_, ok2 := l.cache.Load(configv1alpha1.CronExecutionConfigName)
+		vz.Assert(!ok2, "C19/D/no-partial-update")
+		vz.Cover("kept")
+	} else {
+		_, has := sec.Data[string(configv1alpha1.JobExecutionConfigName)]
+		vz.Assert(ok == has, "C19/D/replaced-by-exactly-the-new-entries")
+		if has {
+			vz.Assert(got["from"] == "data-jobs", "C19/D/new-entry-stored")
+		}
+		vz.Cover("replaced")
+	}
+}
